@@ -64,7 +64,15 @@ class Solver:
                 return solver.call(name, a, oracle, idents)
             return h
 
+        def h_find(model, n, env2):
+            recv = model.ev(n["args"][0], env2)
+            key = model.ev(n["args"][1], env2)
+            if isinstance(recv, tuple) and recv and recv[0] == "doc" and isinstance(key, tuple) and key[0] == "col":
+                return ("some", ("val", key[1])) if recv[1][key[1]] else None
+            raise Unrecognised("find(%r, %r)" % (recv, key))
+
         calls = {
+            "Document::find": h_find,
             ">::get": h_get,
             "solver::solve_expression": mk_local("solver::solve_expression"),
             "solver::match_all": mk_local("solver::match_all"),
@@ -201,6 +209,73 @@ def run(rep):
             table("TRI-NOT", "NOT-" + sym.upper(), [("negate-group", E("Negate", E("BooleanGroup", SYM(sym), kids(k))), {})], k,
                   lambda v, spec=spec: tri.spec_not(spec(v)), "not(%s group) = not applied to the group's result" % sym.lower())
 
+    # MATRIX regions: or over rows of and over cells, with per-column presence and the per-evaluation cache
+    rep.describe("TRI-MATRIX", "Matrix: or over rows of (and over the row's cells in order; a cell whose column is absent is missing); under all(): every row; under of(n): at least n rows")
+
+    def matrix_tables(kind, layouts):
+        for lname, ncols, rows in layouts:
+            # rows: list of rows, each a list of column indices that have a cell (others None)
+            cells = []
+            shape_rows = []
+            for r in rows:
+                row = []
+                for c in range(ncols):
+                    if c in r:
+                        cells.append(c)
+                        row.append(("some", Child(len(cells) - 1)))
+                    else:
+                        row.append(None)
+                shape_rows.append(("list", row))
+            mat = E("Matrix", ("list", [("col", i) for i in range(ncols)]), ("list", shape_rows))
+            shape = mat if kind is None else E("Match", kind, mat)
+            bad = []
+            n = 0
+            try:
+                for pres in itertools.product([True, False], repeat=ncols):
+                    for vec in tri.vectors(len(cells)):
+                        total[0] += 1
+                        n += 1
+                        oracle = lambda i: SR(vec[i])
+                        v = S.call("solver::solve_expression", [shape, ("map", {}), ("doc", pres)], oracle, {})
+                        got = v[1]
+                        # spec
+                        rowvals = []
+                        ci = 0
+                        for r in rows:
+                            val = "T"
+                            for c in sorted(r):
+                                cv = vec[ci + sorted(r).index(c)]
+                                if not pres[c]:
+                                    val = "M"
+                                    break
+                                if cv != "T":
+                                    val = cv
+                                    break
+                            ci += len(r)
+                            rowvals.append(val)
+                        if kind is None:
+                            exp = tri.spec_or(rowvals)
+                            okrow = exp == got
+                        elif kind[2] == "All":
+                            exp = tri.spec_all_hard(rowvals)
+                            okrow = (exp == "T") == (got == "T")
+                        else:
+                            exp = tri.spec_of_hard(rowvals, kind[3][0])
+                            okrow = exp == "any" or (exp == "T") == (got == "T")
+                        if not okrow:
+                            bad.append("present=%s cells=%s -> %s (spec %s)" % ("".join("1" if p else "0" for p in pres), "".join(vec), got, exp))
+            except Unrecognised as e:
+                rep.lost("TRI-MATRIX", "MATRIX/%s/%s" % ("plain" if kind is None else kind[2], lname), "matrix region inside the model language", str(e)[:300])
+                continue
+            rep.check(not bad, "TRI-MATRIX", "MATRIX/%s/%s" % ("plain" if kind is None else (kind[2] + (str(kind[3][0]) if kind[3] else "")), lname), S.fns["solver::solve_expression"].sp,
+                      "matrix with layout %s follows or-of-ands with missing columns [%d cases]" % (lname, n), "; ".join(bad[:5]) if bad else None)
+
+    layouts = [("1col-2rows", 1, [[0], [0]]), ("2cols-diag", 2, [[0], [1]]), ("2cols-full+single", 2, [[0, 1], [1]]), ("2cols-2full", 2, [[0, 1], [0, 1]]), ("3cols-mixed", 3, [[0, 2], [1], [0, 1]])]
+    matrix_tables(None, layouts)
+    matrix_tables(("ctor", "Match", "All", []), layouts[:4])
+    for nn in (0, 1, 2):
+        matrix_tables(("ctor", "Match", "Of", [nn]), layouts[:4])
+
     # EDGE: structural check on the first match of the BooleanExpression arm
     se = S.fns["solver::solve_expression"]
     top = se.body.get("expr")
@@ -271,6 +346,7 @@ def run(rep):
     rep.floor("TRI-ALL", 2 * KMAX)
     rep.floor("TRI-OF", 2 * KMAX * 3)
     rep.floor("TRI-NOT", 6)
+    rep.floor("TRI-MATRIX", 21)
     rep.floor("TRI-VERDICT", 10)
     rep.exhaustive = True
     rep.extra["model_evaluations"] = total[0]
